@@ -16,6 +16,11 @@ Inductive bout := BNorm (reg:rvalue) | BExit (v:rvalue).
 Definition val_of (o:bout) : rvalue := match o with BNorm reg => res_of reg | BExit v => v end.
 Definition oc (o:bout) : outcome := match o with BNorm reg => ONormal reg | BExit v => OExit v end.
 
+(* the first instruction of a (non-empty) block is a plain push or a variable read: true of every block whose first
+   statement does not start with a nular operator; the step that takes a loop round again executes it *)
+Definition leaf_first (b:list stmt) : Prop :=
+  exists i rest, compile_block b = i :: rest /\ ((exists v, i = IPush v) \/ (exists n, i = IGet n)).
+
 Inductive zev : sstate -> expr -> rvalue -> sstate -> Prop :=
 | ZPure s e v : pev (loc_of s) (glob_of s) e v -> zev s e v s
 | ZVarL s n v : is_local n = true -> loc_of s (lower n) = Some v -> nonnil v -> zev s (EVar n) v s
@@ -37,6 +42,13 @@ Inductive zev : sstate -> expr -> rvalue -> sstate -> Prop :=
 | ZThenElse s n a b c x y s1 s2 out s3 : lower n = "then" -> zev s a (RIf c) s1 -> zev s1 b (RArr [RCode x; RCode y]) s2 ->
     zblock (enter s2 []) RNil (if c then x else y) out s3 -> zev s (EBinary n a b) (val_of out) (pop_scope s3)
 | ZExitSkip s n a b x s1 s2 : lower n = "exitwith" -> zev s a (RIf false) s1 -> zev s1 b (RCode x) s2 -> zev s (EBinary n a b) RNil s2
+(* forEach: one scope per element, holding _forEachIndex and _x; the value of the loop is the value of the last round
+   (nil when there was none, or when the last round ended in an assignment); exitWith in the body ends the whole loop *)
+| ZForEachEmpty s n a x body s1 s2 : lower n = "foreach" -> zev s a (RCode body) s1 -> zev s1 x (RArr []) s2 ->
+    zev s (EBinary n a x) RNil s2
+| ZForEach s n a x body x0 arr s1 s2 acc s3 : lower n = "foreach" -> leaf_first body ->
+    zev s a (RCode body) s1 -> zev s1 x (RArr (x0 :: arr)) s2 ->
+    ziter s2 (x0 :: arr) 0 body RNil acc s3 -> zev s (EBinary n a x) acc s3
 with zevs : sstate -> list expr -> list rvalue -> sstate -> Prop :=
 | ZNil s : zevs s [] [] s
 | ZCons s e v s1 l vs s2 : zev s e v s1 -> nonnil v -> zevs s1 l vs s2 -> zevs s (e :: l) (v :: vs) s2
@@ -52,30 +64,57 @@ with zblock : sstate -> rvalue -> list stmt -> bout -> sstate -> Prop :=
     zstmt s reg st reg1 s1 -> zblock s1 RNone (st2 :: rest) out s' -> zblock s reg (st :: st2 :: rest) out s'
 (* the statement `if c exitWith {..}` with a true condition: the handler runs in its own scope, the rest of this scope does not *)
 | ZBExit s reg n l x b s1 s2 out s3 rest : lower n = "exitwith" -> zev s l (RIf true) s1 -> zev s1 x (RCode b) s2 ->
-    zblock (enter s2 []) RNil b out s3 -> zblock s reg (SExpr (EBinary n l x) :: rest) (BExit (val_of out)) (pop_scope s3).
+    zblock (enter s2 []) RNil b out s3 -> zblock s reg (SExpr (EBinary n l x) :: rest) (BExit (val_of out)) (pop_scope s3)
+with ziter : sstate -> list rvalue -> nat -> list stmt -> rvalue -> rvalue -> sstate -> Prop :=
+| ZIterNil s i body acc : ziter s [] i body acc acc s
+| ZIterCons s x rest i body acc reg s1 acc' s' :
+    zblock (enter s [("_foreachindex", RNum (Z.of_nat i)); ("_x", x)]) (match i with O => RNil | _ => RNone end) body (BNorm reg) s1 ->
+    ziter (pop_scope s1) rest (S i) body (res_of reg) acc' s' -> ziter s (x :: rest) i body acc acc' s'
+| ZIterExit s x rest i body acc v s1 :
+    zblock (enter s [("_foreachindex", RNum (Z.of_nat i)); ("_x", x)]) (match i with O => RNil | _ => RNone end) body (BExit v) s1 ->
+    ziter s (x :: rest) i body acc v (pop_scope s1).
 
 Scheme zev_i := Induction for zev Sort Prop
   with zevs_i := Induction for zevs Sort Prop
   with zstmt_i := Induction for zstmt Sort Prop
-  with zblock_i := Induction for zblock Sort Prop.
-Combined Scheme z_ind from zev_i, zevs_i, zstmt_i, zblock_i.
+  with zblock_i := Induction for zblock Sort Prop
+  with ziter_i := Induction for ziter Sort Prop.
+Combined Scheme z_ind from zev_i, zevs_i, zstmt_i, zblock_i, ziter_i.
 
 Lemma zblock_val s reg b out s' : zblock s reg b out s' -> val_of out <> RNone.
 Proof. induction 1; cbn [val_of]; try assumption; match goal with |- res_of ?r <> _ => destruct r; discriminate end. Qed.
+Lemma ziter_val s arr i body acc acc' s' : ziter s arr i body acc acc' s' -> acc <> RNone -> acc' <> RNone.
+Proof.
+  induction 1; intros N; [exact N| |].
+  - apply IHziter. destruct reg; discriminate.
+  - match goal with H : zblock _ _ _ (BExit _) _ |- _ => exact (zblock_val _ _ _ _ _ H) end.
+Qed.
 
 Lemma zev_not_none s e v s' : zev s e v s' -> v <> RNone.
 Proof.
   destruct 1; try discriminate;
     try (match goal with H : nonnil _ |- _ => exact (proj2 H) end);
-    try (match goal with H : zblock _ _ _ _ _ |- _ => exact (zblock_val _ _ _ _ _ H) end).
+    try (match goal with H : zblock _ _ _ _ _ |- _ => exact (zblock_val _ _ _ _ _ H) end);
+    try (match goal with H : ziter _ _ _ _ _ _ _ |- _ => apply (ziter_val _ _ _ _ _ _ _ H); discriminate end).
   - match goal with H : pev _ _ _ _ |- _ => exact (proj2 (data_not_nil _ (pev_data _ _ _ _ H))) end.
   - match goal with H : pure_unary _ _ = Some _ |- _ => intros ->; exact (pure_unary_nonnil _ _ _ H eq_refl) end.
   - match goal with H : pure_binary _ _ _ = Some _ |- _ => intros ->; exact (pure_binary_nonnil _ _ _ _ H eq_refl) end.
 Qed.
 
-(* ---------------------------------------------------------------- the machine: a scope runs to its end, one way or the other *)
-(* the running frame f executes `code`, which reaches to the end of its instructions; when the scope is over - because the
-   code ran out or because exitWith ended it - the frame is gone and exactly one value stands on what was below it *)
+(* ---------------------------------------------------------------- the machine: a block in a frame, to the end of that frame's code *)
+(* the running frame f executes `code`, which reaches to the end of its instructions.  Normal outcome: the frame stands at its
+   end, its region holds the block's value, nothing is completed yet (what happens next depends on the frame: a plain scope
+   completes, a loop goes round).  exitWith: the frame is gone and the handler's value stands on what was below it. *)
+Definition BodyEnds (s:sstate) (reg:rvalue) (code:list instr) (out:bout) (s':sstate) : Prop :=
+  forall r c f fc rest below pre, AtM s reg r c f (fc :: rest) below ->
+    f_code f = pre ++ code -> f_pos f = length pre -> f_base fc <= length below ->
+    match out with
+    | BNorm reg' => exists r' c' f' rest', Steps r r' /\ AtM s' reg' r' c' f' rest' below /\ moved f f' /\
+                      f_pos f' = length (f_code f) /\ Forall2 kept (fc :: rest) rest'
+    | BExit v => exists r' c' fc' rest', Steps r r' /\ Mach (pop_scope s') r' c' fc' rest' /\
+                      c_values c' = cv v :: below /\ kept fc fc' /\ Forall2 kept rest rest'
+    end.
+(* for a plain scope (no exit behaviour) both outcomes end with the frame gone and one value handed over *)
 Definition ScopeEnds (s:sstate) (reg:rvalue) (code:list instr) (out:bout) (s':sstate) : Prop :=
   forall r c f fc rest below pre, AtM s reg r c f (fc :: rest) below ->
     f_code f = pre ++ code -> f_pos f = length pre -> f_exit f = None -> f_base fc <= length below ->
@@ -85,40 +124,48 @@ Definition ScopeEnds (s:sstate) (reg:rvalue) (code:list instr) (out:bout) (s':ss
 Lemma kept_base f f' : kept f f' -> f_base f' = f_base f. Proof. intros H. rewrite <- H. reflexivity. Qed.
 Lemma kept_code f f' : kept f f' -> f_code f' = f_code f. Proof. intros H. rewrite <- H. reflexivity. Qed.
 Lemma kept_exit f f' : kept f f' -> f_exit f' = f_exit f. Proof. intros H. rewrite <- H. reflexivity. Qed.
+Lemma kept_die f f' : kept f f' -> f_die f' = f_die f. Proof. intros H. rewrite <- H. reflexivity. Qed.
+Lemma kept_ns f f' : kept f f' -> f_ns f' = f_ns f. Proof. intros H. rewrite <- H. reflexivity. Qed.
+Lemma moved_die f f' : moved f f' -> f_die f' = f_die f. Proof. intros H. rewrite <- H. reflexivity. Qed.
+Lemma moved_ns f f' : moved f f' -> f_ns f' = f_ns f. Proof. intros H. rewrite <- H. reflexivity. Qed.
 
-(* a frame whose position was moved behind its last instruction (exitWith did that) completes like one that ran out *)
+(* a frame marked as finished by exitWith (position behind its last instruction, die flag) completes whatever its exit behaviour *)
 Lemma complete_dead r c f fc rest top vals :
-  Good r c -> r_defects r = [] -> c_frames c = f :: fc :: rest -> f_pos f = S (length (f_code f)) -> f_exit f = None ->
+  Good r c -> r_defects r = [] -> c_frames c = f :: fc :: rest -> f_pos f = S (length (f_code f)) -> f_die f = true ->
   c_values c = top ++ vals -> length vals = f_base f ->
   let c4 := set_values (set_frames c (fc :: rest)) (match top with [] => VNil | x :: _ => x end :: vals) in
   Steps r (upd_cur r c4) /\ Good (upd_cur r c4) c4.
 Proof.
-  intros G D EF EP EX EV LB c4. pose proof G as (C & X & St & E & M & MR & SU).
+  intros G D EF EP ED EV LB c4. pose proof G as (C & X & St & E & M & MR & SU).
   split; [|apply (good_upd r c c4 G); exact SU].
   eapply StepsCont; [|apply StepsRefl].
   unfold do_iter. rewrite X, C, SU, EF, St.
   destruct frame_fuel_S as [k Hk]. rewrite Hk. cbn [frame_next]. rewrite EF.
   assert (A1 : at_end f = true) by (unfold at_end; apply Nat.eqb_eq; lia).
-  rewrite A1. rewrite EX. cbn [bindr]. rewrite E.
-  cbn [c_frames set_frames length]. rewrite Nat.eqb_refl.
-  unfold defect. rewrite D. cbn [existsb].
-  set (c1 := set_frames c (f :: fc :: rest)).
-  destruct top as [|x top].
-  - cbn [app] in EV.
-    assert (P : pop_value c1 = None).
-    { unfold pop_value. cbn [c_values c1 set_frames c_frames]. rewrite EV. destruct vals; [reflexivity|].
-      destruct (Nat.leb_spec (length (v :: vals)) (f_base f)) as [L|L]; [reflexivity|lia]. }
-    rewrite P. unfold clear_values, pop_frame. cbn [c_frames c1 set_frames c_values tl set_values].
-    rewrite EV, LB, Nat.sub_diag. cbn [skipn]. unfold push_value. subst c4. cbn. reflexivity.
-  - cbn [app] in EV.
-    assert (P : pop_value c1 = Some (x, set_values c1 (top ++ vals))).
-    { apply (pop_value_top c1 f (fc :: rest)); [reflexivity|exact EV|rewrite app_length; lia]. }
-    rewrite P. unfold clear_values, pop_frame. cbn [c_frames c1 set_frames c_values tl set_values].
-    rewrite app_length, <- LB. replace (length top + length vals - length vals) with (length top) by lia.
-    rewrite skipn_app, skipn_all, Nat.sub_diag. cbn [skipn app]. unfold push_value. cbn. reflexivity.
+  rewrite A1.
+  assert (FN : match f_exit f with
+               | Some b => if andb (at_end f) (negb (f_die f)) then bindr (enact b r (set_frames c (f :: fc :: rest))) (fun _ => UB "") else Ok (FDone, r, set_frames c (f :: fc :: rest))
+               | None => Ok (FDone, r, set_frames c (f :: fc :: rest)) end = Ok (FDone, r, set_frames c (f :: fc :: rest))).
+  { destruct (f_exit f); [rewrite A1, ED; reflexivity|reflexivity]. }
+  destruct (f_exit f) as [b|]; [rewrite A1, ED; cbn [andb negb]|]; cbn [bindr]; rewrite E;
+    cbn [c_frames set_frames length]; rewrite Nat.eqb_refl; unfold defect; rewrite D; cbn [existsb];
+    set (c1 := set_frames c (f :: fc :: rest));
+    (destruct top as [|x top];
+     [ cbn [app] in EV;
+       assert (P : pop_value c1 = None) by
+         (unfold pop_value; cbn [c_values c1 set_frames c_frames]; rewrite EV; destruct vals as [|v0 vals0]; [reflexivity|];
+          destruct (Nat.leb_spec (length (v0 :: vals0)) (f_base f)) as [L|L]; [reflexivity|lia]);
+       rewrite P; unfold clear_values, pop_frame; cbn [c_frames c1 set_frames c_values tl set_values];
+       rewrite EV, LB, Nat.sub_diag; cbn [skipn]; unfold push_value; subst c4; cbn; reflexivity
+     | cbn [app] in EV;
+       assert (P : pop_value c1 = Some (x, set_values c1 (top ++ vals))) by
+         (apply (pop_value_top c1 f (fc :: rest)); [reflexivity|exact EV|rewrite app_length; lia]);
+       rewrite P; unfold clear_values, pop_frame; cbn [c_frames c1 set_frames c_values tl set_values];
+       rewrite app_length, <- LB; replace (length top + length vals - length vals) with (length top) by lia;
+       rewrite skipn_app, skipn_all, Nat.sub_diag; cbn [skipn app]; unfold push_value; cbn; reflexivity ]).
 Qed.
 
-(* the running frame has executed all its instructions: it completes *)
+(* the running frame has executed all its instructions and has no exit behaviour: it completes *)
 Lemma finish_scope s reg r c f fc rest below :
   AtM s reg r c f (fc :: rest) below -> f_pos f = length (f_code f) -> f_exit f = None -> f_base fc <= length below ->
   exists r' c', Steps r r' /\ Mach (pop_scope s) r' c' fc rest /\ c_values c' = cv (res_of reg) :: below.
@@ -132,6 +179,17 @@ Proof.
   - cbn. f_equal. destruct top as [|x top]; cbn in RR.
     + rewrite RR. reflexivity.
     + destruct RR as [-> NN]. destruct reg; reflexivity.
+Qed.
+
+Lemma scope_ends_of_body s reg code out s' : BodyEnds s reg code out s' -> ScopeEnds s reg code out s'.
+Proof.
+  intros BE r c f fc rest below pre A EC EP EX HB. specialize (BE r c f fc rest below pre A EC EP HB).
+  destruct out as [reg'|v]; [|exact BE].
+  destruct BE as (r1 & c1 & f1 & rest1 & S1 & A1 & MV1 & P1 & K1).
+  inversion K1 as [|fa fc1 ra rest1' Ka Kb Ea Eb]; subst.
+  destruct (finish_scope s' reg' r1 c1 f1 fc1 rest1' below A1) as (r2 & c2 & S2 & M2 & EV2).
+  { rewrite P1, (moved_code _ _ MV1). reflexivity. } { rewrite (moved_exit _ _ MV1). exact EX. } { rewrite (kept_base _ _ Ka). exact HB. }
+  exists r2, c2, fc1, rest1'. split; [eapply steps_trans; eassumption|]. split; [exact M2|]. split; [exact EV2|]. split; assumption.
 Qed.
 
 (* enter a block as a new frame and let it end *)
@@ -162,6 +220,183 @@ Lemma compile_block_exit n l x rest : compile_block (SExpr (EBinary n l x) :: re
   compile_expr l ++ compile_expr x ++ [IBinary (lower n)] ++ compile_block_from false rest.
 Proof. unfold compile_block. cbn [compile_block_from compile_stmt app]. rewrite compile_binary, <- !app_assoc. reflexivity. Qed.
 
+(* ---------------------------------------------------------------- loops: the pass that goes round *)
+Lemma frame_fuel_SS : exists k, frame_fuel = S (S k).
+Proof. destruct frame_fuel as [|[|k]] eqn:E; [exfalso; unfold frame_fuel in E; lia|exfalso; unfold frame_fuel in E; lia|eauto]. Qed.
+
+Lemma virtual_start r rv r' : do_iter r = do_iter rv -> Steps rv r' -> r' <> rv -> Steps r r'.
+Proof.
+  intros E S N. inversion S; subst; [contradiction| |].
+  - eapply StepsExec; [rewrite E; eassumption|assumption].
+  - eapply StepsCont; [rewrite E; eassumption|assumption].
+Qed.
+
+Lemma logmsg_upd_cur r a d : logmsg (upd_cur r a) d = upd_cur (logmsg r d) a.
+Proof.
+  unfold logmsg, upd_cur. destruct (Z.leb (fst d) 1); destruct (r_active r) eqn:A; cbn; rewrite ?A; reflexivity.
+Qed.
+
+Definition next_round (f:frame) (arr:list value) (idx:nat) : frame :=
+  set_vars (set_pos (set_exit f (Some (BForEach arr (S idx)))) 0)
+           [("_foreachindex", VNum (Z.of_nat (S idx))); ("_x", nth_val arr (S idx))].
+
+Lemma next_round_eq f arr idx :
+  set_pos (set_exit (set_vars (set_pos f (S (f_pos f))) [("_foreachindex", VNum (Z.of_nat (S idx))); ("_x", nth_val arr (S idx))])
+                    (Some (BForEach arr (S idx)))) 0 = next_round f arr idx.
+Proof. destruct f; reflexivity. Qed.
+
+(* the pass that finds the loop body finished, takes the next element and executes the first instruction of the new round *)
+Lemma loop_step_real r c f rest0 arr idx i0 code' top below r3 c5 :
+  Good r c -> c_frames c = f :: rest0 -> f_pos f = length (f_code f) -> f_exit f = Some (BForEach arr idx) -> f_die f = false ->
+  Nat.eqb (S idx) (length arr) = false -> f_code f = i0 :: code' ->
+  c_values c = top ++ below -> length below = f_base f ->
+  exec_instr i0 r (set_values (set_frames c (set_pos (next_round f arr idx) 1 :: rest0)) below) = Ok (r3, c5) ->
+  r_err (upd_cur r3 c5) = false ->
+  do_iter r = Ok (Executed (set_msgs (upd_cur r3 c5) [])).
+Proof.
+  intros G EF EP EX ED NE EC EV LB EI NErr. pose proof G as (C & X & St & E & M & MR & SU).
+  unfold do_iter. rewrite X, C, SU, EF, St.
+  destruct frame_fuel_SS as [k Hk]. rewrite Hk.
+  cbn [frame_next]. rewrite EF.
+  assert (A1 : at_end f = false) by (unfold at_end; apply Nat.eqb_neq; lia).
+  assert (A2 : at_end (set_pos f (S (f_pos f))) = true) by (unfold at_end; cbn; apply Nat.eqb_eq; lia).
+  rewrite A1, A2. cbn [f_exit set_pos f_die]. rewrite EX, ED. cbn [andb negb].
+  cbn [enact]. rewrite NE. cbn [bindr].
+  match goal with |- context [top_code_empty ?x] => set (c4 := x) end.
+  assert (C4 : c4 = set_values (set_frames c (next_round f arr idx :: rest0)) below).
+  { subst c4. unfold restart_with, clear_values, upd_top.
+    cbn [c_frames set_frames c_values set_values f_base set_pos set_vars set_exit].
+    rewrite EV, app_length, <- LB. replace (length top + length below - length below) with (length top) by lia.
+    rewrite skipn_app, skipn_all, Nat.sub_diag. cbn [skipn app]. rewrite Nat.sub_diag. cbn [skipn].
+    unfold next_round. destruct f; destruct c; reflexivity. }
+  rewrite C4. clear C4 c4.
+  assert (TE : top_code_empty (set_values (set_frames c (next_round f arr idx :: rest0)) below) = false).
+  { unfold top_code_empty. cbn [c_frames set_values set_frames next_round f_code set_vars set_pos set_exit]. rewrite EC. reflexivity. }
+  rewrite TE. cbn [c_frames set_values set_frames].
+  assert (B1 : at_end (next_round f arr idx) = false) by (unfold at_end; reflexivity).
+  assert (B2 : at_end (set_pos (next_round f arr idx) (S (f_pos (next_round f arr idx)))) = false).
+  { unfold at_end. cbn [f_pos f_code next_round set_vars set_pos set_exit]. rewrite EC. reflexivity. }
+  rewrite B1, B2. cbn [f_exit set_pos next_round set_vars set_exit andb]. cbn [bindr]. rewrite E.
+  unfold current_instr. cbn [c_frames set_frames set_values f_code f_pos set_pos set_vars set_exit next_round Nat.sub].
+  rewrite EC. cbn [nth_error]. rewrite MR. cbn [Z.eqb].
+  match goal with |- context [exec_instr i0 r ?x] => replace x with (set_values (set_frames c (set_pos (next_round f arr idx) 1 :: rest0)) below) by (destruct c; reflexivity) end.
+  rewrite EI. cbn [bindr]. rewrite NErr. reflexivity.
+Qed.
+
+Lemma err_upd_cur r c : r_err (upd_cur r c) = r_err r.
+Proof. unfold upd_cur. destruct (r_active r); reflexivity. Qed.
+Lemma err_logmsg_warn r c : r_err (upd_cur (logmsg r d_VariableNotFound) c) = r_err r.
+Proof. rewrite err_upd_cur. reflexivity. Qed.
+Lemma ns_get_upd_cur r c ns n : ns_get (upd_cur r c) ns n = ns_get r ns n.
+Proof. unfold ns_get. rewrite nss_upd_cur. reflexivity. Qed.
+
+Lemma loop_back r c f rest0 arr idx i0 code' top below :
+  Good r c -> c_frames c = f :: rest0 -> f_pos f = length (f_code f) -> f_exit f = Some (BForEach arr idx) -> f_die f = false ->
+  Nat.eqb (S idx) (length arr) = false -> f_code f = i0 :: code' -> ((exists v, i0 = IPush v) \/ (exists n, i0 = IGet n)) ->
+  c_values c = top ++ below -> length below = f_base f ->
+  do_iter r = do_iter (upd_cur r (set_values (set_frames c (next_round f arr idx :: rest0)) below)).
+Proof.
+  intros G EF EP EX ED NE EC LF EV LB. pose proof G as (C & X & St & E & M & MR & SU).
+  set (fV := next_round f arr idx). set (cV := set_values (set_frames c (fV :: rest0)) below).
+  assert (GV : Good (upd_cur r cV) cV) by (apply (good_upd r c cV G); exact SU).
+  set (cin := set_values (set_frames c (set_pos fV 1 :: rest0)) below).
+  assert (NV : nth_error (f_code fV) (f_pos fV) = Some i0) by (cbn; rewrite EC; reflexivity).
+  assert (EVr : forall r3 c5, exec_instr i0 (upd_cur r cV) cin = Ok (r3, c5) -> r_err (upd_cur r3 c5) = false ->
+            do_iter (upd_cur r cV) = Ok (Executed (set_msgs (upd_cur r3 c5) []))).
+  { intros r3 c5 H1 H2. apply (step_instr (upd_cur r cV) cV fV rest0 i0 r3 c5 GV eq_refl NV); [exact H1|exact H2]. }
+  assert (ERr : forall r3 c5, exec_instr i0 r cin = Ok (r3, c5) -> r_err (upd_cur r3 c5) = false ->
+            do_iter r = Ok (Executed (set_msgs (upd_cur r3 c5) []))).
+  { intros r3 c5 H1 H2. eapply loop_step_real; eauto. }
+  destruct LF as [[v ->]|[n ->]].
+  - rewrite (ERr r (push_value cin v)); [|reflexivity|rewrite err_upd_cur; exact E].
+    rewrite (EVr (upd_cur r cV) (push_value cin v)); [|reflexivity|rewrite !err_upd_cur; exact E].
+    rewrite upd_cur_twice. reflexivity.
+  - cbn [exec_instr] in EVr, ERr. destruct (is_local n).
+    + destruct (get_variable cin n) as [v|].
+      * rewrite (ERr r (push_value cin v)); [|reflexivity|rewrite err_upd_cur; exact E].
+        rewrite (EVr (upd_cur r cV) (push_value cin v)); [|reflexivity|rewrite !err_upd_cur; exact E].
+        rewrite upd_cur_twice. reflexivity.
+      * rewrite (ERr _ _ eq_refl); [|rewrite err_logmsg_warn; exact E].
+        rewrite (EVr _ _ eq_refl); [|rewrite err_logmsg_warn, err_upd_cur; exact E].
+        rewrite logmsg_upd_cur, upd_cur_twice. reflexivity.
+    + cbn [c_frames cin set_values set_frames] in EVr, ERr. rewrite ns_get_upd_cur in EVr.
+      destruct (ns_get r (f_ns (set_pos fV 1)) n) as [v|].
+      * rewrite (ERr r (push_value cin v)); [|reflexivity|rewrite err_upd_cur; exact E].
+        rewrite (EVr (upd_cur r cV) (push_value cin v)); [|reflexivity|rewrite !err_upd_cur; exact E].
+        rewrite upd_cur_twice. reflexivity.
+      * rewrite (ERr _ _ eq_refl); [|rewrite err_logmsg_warn; exact E].
+        rewrite (EVr _ _ eq_refl); [|rewrite err_logmsg_warn, err_upd_cur; exact E].
+        rewrite logmsg_upd_cur, upd_cur_twice. reflexivity.
+Qed.
+
+(* the pass that finds the loop body finished after the last element: the loop frame completes like any other *)
+Lemma complete_loop r c f fc rest arr idx top vals :
+  Good r c -> r_defects r = [] -> c_frames c = f :: fc :: rest -> f_pos f = length (f_code f) ->
+  f_exit f = Some (BForEach arr idx) -> f_die f = false -> Nat.eqb (S idx) (length arr) = true ->
+  c_values c = top ++ vals -> length vals = f_base f ->
+  let c4 := set_values (set_frames c (fc :: rest)) (match top with [] => VNil | x :: _ => x end :: vals) in
+  Steps r (upd_cur r c4) /\ Good (upd_cur r c4) c4.
+Proof.
+  intros G D EF EP EX ED NE EV LB c4. pose proof G as (C & X & St & E & M & MR & SU).
+  split; [|apply (good_upd r c c4 G); exact SU].
+  eapply StepsCont; [|apply StepsRefl].
+  unfold do_iter. rewrite X, C, SU, EF, St.
+  destruct frame_fuel_S as [k Hk]. rewrite Hk. cbn [frame_next]. rewrite EF.
+  assert (A1 : at_end f = false) by (unfold at_end; apply Nat.eqb_neq; lia).
+  assert (A2 : at_end (set_pos f (S (f_pos f))) = true) by (unfold at_end; cbn; apply Nat.eqb_eq; lia).
+  rewrite A1, A2. cbn [f_exit set_pos f_die]. rewrite EX, ED. cbn [andb negb].
+  cbn [enact]. rewrite NE. cbn [bindr]. rewrite E.
+  unfold upd_top. cbn [c_frames set_frames length]. rewrite Nat.eqb_refl.
+  unfold defect. rewrite D. cbn [existsb].
+  match goal with |- context [pop_value ?x] => set (c1 := x) end.
+  destruct top as [|x top].
+  - cbn [app] in EV.
+    assert (P : pop_value c1 = None).
+    { unfold pop_value. cbn [c_values c1 set_frames c_frames f_base set_pos set_exit]. rewrite EV. destruct vals; [reflexivity|].
+      destruct (Nat.leb_spec (length (v :: vals)) (f_base f)) as [L|L]; [reflexivity|lia]. }
+    rewrite P. unfold clear_values, pop_frame. cbn [c_frames c1 set_frames c_values f_base set_pos set_exit tl set_values].
+    rewrite EV, LB, Nat.sub_diag. cbn [skipn]. unfold push_value. subst c4. cbn. reflexivity.
+  - cbn [app] in EV.
+    assert (P : pop_value c1 = Some (x, set_values c1 (top ++ vals))).
+    { apply (pop_value_top c1 (set_exit (set_pos f (S (f_pos f))) (Some (BForEach arr (S idx)))) (fc :: rest)); [reflexivity|exact EV|cbn; rewrite app_length; lia]. }
+    rewrite P. unfold clear_values, pop_frame. cbn [c_frames c1 set_frames c_values f_base set_pos set_exit tl set_values].
+    rewrite app_length, <- LB. replace (length top + length vals - length vals) with (length top) by lia.
+    rewrite skipn_app, skipn_all, Nat.sub_diag. cbn [skipn app]. unfold push_value. cbn. reflexivity.
+Qed.
+
+
+Lemma neq_by_frames r r' c c' : cur r = Some c -> cur r' = Some c' -> length (c_frames c') <> length (c_frames c) -> r' <> r.
+Proof. intros C C' N E. subst r'. rewrite C in C'. inversion C'; subst. apply N. reflexivity. Qed.
+Lemma forall2_length {A B} (R:A->B->Prop) l l' : Forall2 R l l' -> length l' = length l.
+Proof. induction 1; cbn; auto. Qed.
+Lemma skipn_cons_nth (l:list rvalue) i x rest : skipn i l = x :: rest -> nth i l RNil = x /\ skipn (S i) l = rest.
+Proof.
+  revert i. induction l as [|a l IH]; intros [|i] H; cbn in *; try discriminate.
+  - inversion H; subst. split; reflexivity.
+  - apply IH. exact H.
+Qed.
+Lemma skipn_cons_length {A} (l:list A) i x rest : skipn i l = x :: rest -> length l = i + S (length rest).
+Proof.
+  revert i. induction l as [|a l IH]; intros [|i] H; cbn in *; try discriminate.
+  - inversion H; subst. reflexivity.
+  - rewrite (IH i H). reflexivity.
+Qed.
+Lemma nth_val_map l i : nth_val (map cv l) i = cv (nth i l RNil).
+Proof. unfold nth_val. change VNil with (cv RNil). apply map_nth. Qed.
+
+(* the state at the start of a round: the loop frame at position 0 with the element bound, its behaviour at that index *)
+Definition IterRuns (s:sstate) (arr:list rvalue) (i:nat) (body:list stmt) (acc acc':rvalue) (s':sstate) : Prop :=
+  match arr with
+  | [] => True
+  | x :: rest0 =>
+    forall r c f fc frest below allarr,
+      AtM (enter s [("_foreachindex", RNum (Z.of_nat i)); ("_x", x)]) (match i with O => RNil | _ => RNone end) r c f (fc :: frest) below ->
+      f_code f = compile_block body -> f_pos f = 0 -> f_exit f = Some (BForEach (map cv allarr) i) -> f_die f = false ->
+      skipn i allarr = x :: rest0 -> leaf_first body -> f_ns f = f_ns fc -> f_base fc <= length below ->
+      exists r' c' fc' rest', Steps r r' /\ r' <> r /\ Mach s' r' c' fc' rest' /\ c_values c' = cv acc' :: below /\
+        kept fc fc' /\ Forall2 kept frest rest'
+  end.
+
 Theorem vm_runs_z :
   (forall s e v s', zev s e v s' -> forall r c f rest pre post, Mach s r c f rest ->
       f_code f = pre ++ compile_expr e ++ post -> f_pos f = length pre -> Post s' (cv v) (length (compile_expr e)) r c f rest) /\
@@ -170,7 +405,8 @@ Theorem vm_runs_z :
       (exists r' c' f' rest', Steps r r' /\ Mach s' r' c' f' rest' /\ c_values c' = rev (map cv vs) ++ c_values c /\
          moved f f' /\ f_pos f' = f_pos f + length (flat_map compile_expr l) /\ Forall2 kept rest rest') /\ length l = length vs) /\
   (forall s reg st reg1 s1, zstmt s reg st reg1 s1 -> BlockRuns s reg (compile_stmt st) reg1 s1) /\
-  (forall s reg b out s', zblock s reg b out s' -> ScopeEnds s reg (compile_block b) out s').
+  (forall s reg b out s', zblock s reg b out s' -> BodyEnds s reg (compile_block b) out s') /\
+  (forall s arr i body acc acc' s', ziter s arr i body acc acc' s' -> IterRuns s arr i body acc acc' s').
 Proof.
   apply z_ind.
   - (* pure *) intros s e v HE r c f rest pre post (G & EF & M & B & D) EC EP.
@@ -252,7 +488,7 @@ Proof.
     { rewrite (moved_base _ _ MV1); exact B. } { discriminate. }
     { rewrite lower_idem, HN. fold c0. cbn [cv]. unfold op_unary. cbn [String.eqb Ascii.eqb Bool.eqb]. rewrite TH. reflexivity. }
     { destruct G1 as (_ & _ & _ & _ & _ & _ & SU); exact SU. }
-    destruct (scope_run_z s1 [("_this", this_of s1)] b reg s2 _ c0 (set_pos f1 (S (f_pos f1))) rest1 IHb G2) as (r3 & c3 & fc3 & rest3 & S3 & M3 & EV3 & K3 & KR3).
+    destruct (scope_run_z s1 [("_this", this_of s1)] b reg s2 _ c0 (set_pos f1 (S (f_pos f1))) rest1 (scope_ends_of_body _ _ _ _ _ IHb) G2) as (r3 & c3 & fc3 & rest3 & S3 & M3 & EV3 & K3 & KR3).
     { rewrite defects_upd_cur; exact D1. } { reflexivity. } { apply match_upd, match_set_pos; exact MM1. }
     { cbn. rewrite (moved_base _ _ MV1); exact B. }
     eexists _, _, fc3, rest3. split; [eapply steps_trans; [exact S1|eapply steps_trans; [exact S2|exact S3]]|]. split; [exact M3|].
@@ -272,7 +508,7 @@ Proof.
     { rewrite (moved_base _ _ MV2), (moved_base _ _ MV1); exact B. } { discriminate. } { apply nonnil_cv; exact NNa. }
     { rewrite lower_idem, HN. reflexivity. }
     { destruct G2 as (_ & _ & _ & _ & _ & _ & SU); exact SU. }
-    destruct (scope_run_z s2 [("_this", va)] b reg s3 _ c0 (set_pos f2 (S (f_pos f2))) rest2 IHb G3) as (r4 & c4 & fc4 & rest4 & S4 & M4 & EV4 & K4 & KR4).
+    destruct (scope_run_z s2 [("_this", va)] b reg s3 _ c0 (set_pos f2 (S (f_pos f2))) rest2 (scope_ends_of_body _ _ _ _ _ IHb) G3) as (r4 & c4 & fc4 & rest4 & S4 & M4 & EV4 & K4 & KR4).
     { rewrite defects_upd_cur; exact D2. } { reflexivity. } { apply match_upd, match_set_pos; exact MM2. }
     { cbn. rewrite (moved_base _ _ MV2), (moved_base _ _ MV1); exact B. }
     eexists _, _, fc4, rest4. split; [eapply steps_trans; [exact S1|eapply steps_trans; [exact S2|eapply steps_trans; [exact S3|exact S4]]]|].
@@ -339,7 +575,7 @@ Proof.
                 (push_frame c0 (mk_frame (cur_ns c0) (compile_block x) None None (mvars []))) VNil G2 EF2 EC2 EP2 EV2) as [S3 G3].
     { rewrite (moved_base _ _ MV2), (moved_base _ _ MV1); exact B. } { discriminate. } { discriminate. } { rewrite lower_idem, HN. reflexivity. }
     { destruct G2 as (_ & _ & _ & _ & _ & _ & SU); exact SU. }
-    destruct (scope_run_z s2 [] x reg s3 _ c0 (set_pos f2 (S (f_pos f2))) rest2 IHx G3) as (r4 & c4 & fc4 & rest4 & S4 & M4 & EV4 & K4 & KR4).
+    destruct (scope_run_z s2 [] x reg s3 _ c0 (set_pos f2 (S (f_pos f2))) rest2 (scope_ends_of_body _ _ _ _ _ IHx) G3) as (r4 & c4 & fc4 & rest4 & S4 & M4 & EV4 & K4 & KR4).
     { rewrite defects_upd_cur; exact D2. } { reflexivity. } { apply match_upd, match_set_pos; exact MM2. }
     { cbn. rewrite (moved_base _ _ MV2), (moved_base _ _ MV1); exact B. }
     eexists _, _, fc4, rest4. split; [eapply steps_trans; [exact S1|eapply steps_trans; [exact S2|eapply steps_trans; [exact S3|exact S4]]]|].
@@ -360,7 +596,7 @@ Proof.
     { rewrite (moved_base _ _ MV2), (moved_base _ _ MV1); exact B. } { discriminate. } { discriminate. }
     { rewrite lower_idem, HN. destruct cnd; reflexivity. }
     { destruct G2 as (_ & _ & _ & _ & _ & _ & SU); exact SU. }
-    destruct (scope_run_z s2 [] (if cnd then x else y) reg s3 _ c0 (set_pos f2 (S (f_pos f2))) rest2 IHx G3) as (r4 & c4 & fc4 & rest4 & S4 & M4 & EV4 & K4 & KR4).
+    destruct (scope_run_z s2 [] (if cnd then x else y) reg s3 _ c0 (set_pos f2 (S (f_pos f2))) rest2 (scope_ends_of_body _ _ _ _ _ IHx) G3) as (r4 & c4 & fc4 & rest4 & S4 & M4 & EV4 & K4 & KR4).
     { rewrite defects_upd_cur; exact D2. } { reflexivity. } { apply match_upd, match_set_pos; exact MM2. }
     { cbn. rewrite (moved_base _ _ MV2), (moved_base _ _ MV1); exact B. }
     eexists _, _, fc4, rest4. split; [eapply steps_trans; [exact S1|eapply steps_trans; [exact S2|eapply steps_trans; [exact S3|exact S4]]]|].
@@ -384,6 +620,57 @@ Proof.
       split; [cbn; rewrite (moved_base _ _ MV2), (moved_base _ _ MV1); lia|rewrite defects_upd_cur; exact D2].
     + split; [reflexivity|]. split; [eapply moved_trans; [exact MV1|eapply moved_trans; [exact MV2|apply moved_set_pos]]|].
       split; [cbn; rewrite P2, P1; lia|eapply kept_all_trans; eassumption].
+  - (* {..} forEach [] *) intros s n a b x s1 s2 HN HA IHa HB IHb r c f rest pre post MA EC EP.
+    rewrite compile_binary in *. rewrite !app_length. cbn [length]. rewrite <- !app_assoc in EC.
+    post_intro (IHa r c f rest pre (compile_expr b ++ [IBinary (lower n)] ++ post) MA EC EP) r1 c1 f1 rest1 S1 M1 EV1 MV1 P1 K1.
+    destruct (after_operands_code f f1 pre _ _ MV1 EC EP P1) as [EC1 EP1].
+    post_intro (IHb r1 c1 f1 rest1 (pre ++ compile_expr a) ([IBinary (lower n)] ++ post) M1 EC1 EP1) r2 c2 f2 rest2 S2 M2 EV2 MV2 P2 K2.
+    destruct (after_operands_code f1 f2 _ _ _ MV2 EC1 EP1 P2) as [EC2 EP2].
+    destruct M2 as (G2 & EF2 & MM2 & B2 & D2). destruct MA as (_ & _ & _ & B & _).
+    rewrite EV1 in EV2.
+    set (c0 := set_values (set_frames c2 (set_pos f2 (S (f_pos f2)) :: rest2)) (c_values c)).
+    destruct (binary_run r2 c2 f2 rest2 _ _ (lower n) (cv (RCode x)) (cv (RArr [])) (c_values c) c0 VNil G2 EF2 EC2 EP2 EV2) as [S3 G3].
+    { rewrite (moved_base _ _ MV2), (moved_base _ _ MV1); exact B. } { discriminate. } { discriminate. } { rewrite lower_idem, HN. reflexivity. }
+    { destruct G2 as (_ & _ & _ & _ & _ & _ & SU); exact SU. }
+    eexists _, _, _, rest2. split; [eapply steps_trans; [exact S1|eapply steps_trans; [exact S2|exact S3]]|]. split.
+    + split; [exact G3|]. split; [reflexivity|]. split; [apply match_upd, match_set_pos; exact MM2|].
+      split; [cbn; rewrite (moved_base _ _ MV2), (moved_base _ _ MV1); lia|rewrite defects_upd_cur; exact D2].
+    + split; [reflexivity|]. split; [eapply moved_trans; [exact MV1|eapply moved_trans; [exact MV2|apply moved_set_pos]]|].
+      split; [cbn; rewrite P2, P1; lia|eapply kept_all_trans; eassumption].
+  - (* {..} forEach [x0, ..] *) intros s n a x body x0 arr s1 s2 acc s3 HN LF HA IHa HX IHx HI IHi r c f rest pre post MA EC EP.
+    rewrite compile_binary in *. rewrite !app_length. cbn [length]. rewrite <- !app_assoc in EC.
+    post_intro (IHa r c f rest pre (compile_expr x ++ [IBinary (lower n)] ++ post) MA EC EP) r1 c1 f1 rest1 S1 M1 EV1 MV1 P1 K1.
+    destruct (after_operands_code f f1 pre _ _ MV1 EC EP P1) as [EC1 EP1].
+    post_intro (IHx r1 c1 f1 rest1 (pre ++ compile_expr a) ([IBinary (lower n)] ++ post) M1 EC1 EP1) r2 c2 f2 rest2 S2 M2 EV2 MV2 P2 K2.
+    destruct (after_operands_code f1 f2 _ _ _ MV2 EC1 EP1 P2) as [EC2 EP2].
+    destruct M2 as (G2 & EF2 & MM2 & B2 & D2). destruct MA as (_ & _ & _ & B & _).
+    rewrite EV1 in EV2.
+    set (c0 := set_values (set_frames c2 (set_pos f2 (S (f_pos f2)) :: rest2)) (c_values c)).
+    set (lf := mk_frame (cur_ns c0) (compile_block body) (Some (BForEach (map cv (x0 :: arr)) 0)) None [("_x", cv x0); ("_foreachindex", VNum 0)]).
+    destruct (binary_run r2 c2 f2 rest2 _ _ (lower n) (cv (RCode body)) (cv (RArr (x0 :: arr))) (c_values c)
+                (push_frame c0 lf) VNil G2 EF2 EC2 EP2 EV2) as [S3 G3].
+    { rewrite (moved_base _ _ MV2), (moved_base _ _ MV1); exact B. } { discriminate. } { discriminate. } { rewrite lower_idem, HN. reflexivity. }
+    { destruct G2 as (_ & _ & _ & _ & _ & _ & SU); exact SU. }
+    set (nf := set_base lf (length (c_values c))).
+    cbn [IterRuns] in IHi.
+    destruct (IHi (upd_cur r2 (push_value (push_frame c0 lf) VNil)) (push_value (push_frame c0 lf) VNil) nf (set_pos f2 (S (f_pos f2))) rest2 (c_values c) (x0 :: arr))
+      as (r4 & c4 & fc4 & rest4 & S4 & _ & M4 & EV4 & K4 & KR4).
+    { split.
+      - split; [exact G3|]. split; [reflexivity|]. split.
+        + apply match_upd. destruct MM2 as [F N]. split; [|exact N]. cbn. inversion F as [|sc f0 scs fs FM F' E1 E2]; subst.
+          constructor; [|constructor; [exact FM|exact F']].
+          split; [|split; [|reflexivity]].
+          * intros k. cbn. destruct (String.eqb k "_x") eqn:Ex, (String.eqb k "_foreachindex") eqn:Ei; try reflexivity.
+            apply String.eqb_eq in Ex, Ei. subst k. discriminate Ei.
+          * cbn. destruct FM as (_ & NS & _). unfold cur_ns_of. rewrite <- E1. exact NS.
+        + split; [cbn; lia|rewrite defects_upd_cur; exact D2].
+      - split; [reflexivity|]. exists [VNil]. split; [reflexivity|]. split; [reflexivity|discriminate]. }
+    { reflexivity. } { reflexivity. } { reflexivity. } { reflexivity. } { reflexivity. } { exact LF. } { reflexivity. }
+    { cbn. rewrite (moved_base _ _ MV2), (moved_base _ _ MV1); exact B. }
+    eexists _, _, fc4, rest4. split; [eapply steps_trans; [exact S1|eapply steps_trans; [exact S2|eapply steps_trans; [exact S3|exact S4]]]|].
+    split; [exact M4|]. split; [exact EV4|].
+    split; [eapply moved_trans; [exact MV1|eapply moved_trans; [exact MV2|eapply moved_trans; [apply (moved_set_pos f2 (S (f_pos f2)))|apply kept_moved; exact K4]]]|].
+    split; [rewrite (kept_pos _ _ K4); cbn; rewrite P2, P1; lia|eapply kept_all_trans; [exact K1|eapply kept_all_trans; eassumption]].
   - (* no elements *) intros s r c f rest pre post MA EC EP. split; [|reflexivity].
     exists r, c, f, rest. split; [apply StepsRefl|]. split; [exact MA|]. split; [reflexivity|]. split; [apply moved_refl|].
     split; [cbn; lia|apply kept_all_refl].
@@ -422,19 +709,15 @@ Proof.
     exists r2, c2, f2, rest2. split; [eapply steps_trans; eassumption|]. split.
     + split; [exact M2|]. split; [rewrite (moved_base _ _ MV2), (moved_base _ _ MV1); exact LB|]. exists top. split; [rewrite EV2; exact EV|exact RR].
     + split; [eapply moved_trans; eassumption|]. split; [rewrite P2, P1; lia|eapply kept_all_trans; eassumption].
-  - (* empty block: the frame has run out *) intros s reg r c f fc rest below pre A EC EP EX HB.
+  - (* empty block *) intros s reg r c f fc rest below pre A EC EP HB.
     unfold compile_block in EC. cbn [compile_block_from] in EC. rewrite app_nil_r in EC.
-    destruct (finish_scope s reg r c f fc rest below A) as (r1 & c1 & S1 & M1 & EV1); [rewrite EP, EC; reflexivity|exact EX|exact HB|].
-    exists r1, c1, fc, rest. split; [exact S1|]. split; [exact M1|]. split; [exact EV1|]. split; [apply kept_refl|apply kept_all_refl].
-  - (* last statement, then the frame has run out *) intros s reg st reg1 s1 HS IHs r c f fc rest below pre A EC EP EX HB.
+    exists r, c, f, (fc :: rest). split; [apply StepsRefl|]. split; [exact A|]. split; [apply moved_refl|]. split; [rewrite EP, EC; reflexivity|apply kept_all_refl].
+  - (* last statement *) intros s reg st reg1 s1 HS IHs r c f fc rest below pre A EC EP HB.
     unfold compile_block in EC. cbn [compile_block_from app] in EC.
     destruct (IHs r c f (fc :: rest) below pre [] A EC EP) as (r1 & c1 & f1 & rest1 & S1 & A1 & MV1 & P1 & K1).
-    inversion K1 as [|fa fc1 ra rest1' Ka Kb Ea Eb]; subst.
-    destruct (finish_scope s1 reg1 r1 c1 f1 fc1 rest1' below A1) as (r2 & c2 & S2 & M2 & EV2).
-    { rewrite P1, EP, (moved_code _ _ MV1), EC, !app_length. cbn. lia. }
-    { rewrite (moved_exit _ _ MV1). exact EX. } { rewrite (kept_base _ _ Ka). exact HB. }
-    exists r2, c2, fc1, rest1'. split; [eapply steps_trans; eassumption|]. split; [exact M2|]. split; [exact EV2|]. split; assumption.
-  - (* statement; rest of the block *) intros s reg st reg1 s1 st2 rest0 out s' HS IHs HB IHb r c f fc rest below pre A EC EP EX HBf.
+    exists r1, c1, f1, rest1. split; [exact S1|]. split; [exact A1|]. split; [exact MV1|]. split; [|exact K1].
+    rewrite P1, EP, EC, !app_length. cbn. lia.
+  - (* statement; rest of the block *) intros s reg st reg1 s1 st2 rest0 out s' HS IHs HB IHb r c f fc rest below pre A EC EP HBf.
     rewrite compile_block_cons2 in EC.
     destruct (IHs r c f (fc :: rest) below pre _ A EC EP) as (r1 & c1 & f1 & rest1 & S1 & A1 & MV1 & P1 & K1).
     inversion K1 as [|fa fc1 ra rest1' Ka Kb Ea Eb]; subst.
@@ -442,15 +725,24 @@ Proof.
     { rewrite (moved_code _ _ MV1), EC, <- app_assoc. reflexivity. }
     assert (EP1 : f_pos f1 = length (pre ++ compile_stmt st)) by (rewrite app_length, P1, EP; reflexivity).
     destruct (end_run s1 reg1 r1 c1 f1 (fc1 :: rest1') below _ _ A1 EC1 EP1) as (r2 & c2 & S2 & A2).
-    destruct (IHb r2 c2 (set_pos f1 (S (f_pos f1))) fc1 rest1' below (pre ++ compile_stmt st ++ [IEnd]) A2) as (r3 & c3 & fc3 & rest3 & S3 & M3 & EV3 & K3 & KR3).
-    { cbn [set_pos f_code]. rewrite EC1, <- !app_assoc. reflexivity. }
-    { cbn [set_pos f_pos]. rewrite EP1, !app_length. cbn. lia. }
-    { cbn [set_pos f_exit]. rewrite (moved_exit _ _ MV1). exact EX. }
-    { rewrite (kept_base _ _ Ka). exact HBf. }
-    exists r3, c3, fc3, rest3. split; [eapply steps_trans; [exact S1|eapply steps_trans; [exact S2|exact S3]]|].
-    split; [exact M3|]. split; [exact EV3|]. split; [eapply kept_trans; eassumption|eapply kept_all_trans; eassumption].
+    specialize (IHb r2 c2 (set_pos f1 (S (f_pos f1))) fc1 rest1' below (pre ++ compile_stmt st ++ [IEnd]) A2).
+    assert (Q1 : f_code (set_pos f1 (S (f_pos f1))) = (pre ++ compile_stmt st ++ [IEnd]) ++ compile_block (st2 :: rest0))
+      by (cbn [set_pos f_code]; rewrite EC1, <- !app_assoc; reflexivity).
+    assert (Q2 : f_pos (set_pos f1 (S (f_pos f1))) = length (pre ++ compile_stmt st ++ [IEnd]))
+      by (cbn [set_pos f_pos]; rewrite EP1, !app_length; cbn; lia).
+    assert (Q3 : f_base fc1 <= length below) by (rewrite (kept_base _ _ Ka); exact HBf).
+    specialize (IHb Q1 Q2 Q3).
+    destruct out as [reg'|v].
+    + destruct IHb as (r3 & c3 & f3 & rest3 & S3 & A3 & MV3 & P3 & K3).
+      exists r3, c3, f3, rest3. split; [eapply steps_trans; [exact S1|eapply steps_trans; [exact S2|exact S3]]|].
+      split; [exact A3|]. split; [eapply moved_trans; [exact MV1|eapply moved_trans; [apply (moved_set_pos f1 (S (f_pos f1)))|exact MV3]]|].
+      split; [rewrite P3; cbn [set_pos f_code]; rewrite (moved_code _ _ MV1); reflexivity|].
+      eapply kept_all_trans; [|exact K3]. constructor; assumption.
+    + destruct IHb as (r3 & c3 & fc3 & rest3 & S3 & M3 & EV3 & K3 & KR3).
+      exists r3, c3, fc3, rest3. split; [eapply steps_trans; [exact S1|eapply steps_trans; [exact S2|exact S3]]|].
+      split; [exact M3|]. split; [exact EV3|]. split; [eapply kept_trans; eassumption|eapply kept_all_trans; eassumption].
   - (* if true exitWith {..}: the scope ends here *)
-    intros s reg n l x b s1 s2 out s3 rest0 HN HL IHl HX IHx HB IHb r c f fc rest below pre (MA & LB & top & EV & RR) EC EP EX HBf.
+    intros s reg n l x b s1 s2 out s3 rest0 HN HL IHl HX IHx HB IHb r c f fc rest below pre (MA & LB & top & EV & RR) EC EP HBf.
     rewrite compile_block_exit in EC.
     post_intro (IHl r c f (fc :: rest) pre _ MA EC EP) r1 c1 f1 rest1 S1 M1 EV1 MV1 P1 K1.
     destruct (after_operands_code f f1 pre _ _ MV1 EC EP P1) as [EC1 EP1].
@@ -476,13 +768,13 @@ Proof.
           split; [intros k; reflexivity|split; [|reflexivity]]. cbn. destruct FM as (_ & NS & _). unfold cur_ns_of. rewrite <- E1. exact NS.
         + split; [cbn; lia|rewrite defects_upd_cur; exact D2].
       - split; [reflexivity|]. exists [VNil]. split; [reflexivity|]. split; [reflexivity|discriminate]. }
-    destruct (IHb _ _ nf fdie (fc2 :: rest2') (c_values c) [] A3 eq_refl eq_refl eq_refl) as (r4 & c4 & fd4 & rest4 & S4 & M4 & EV4 & K4 & KR4).
+    destruct (scope_ends_of_body _ _ _ _ _ IHb _ _ nf fdie (fc2 :: rest2') (c_values c) [] A3 eq_refl eq_refl eq_refl) as (r4 & c4 & fd4 & rest4 & S4 & M4 & EV4 & K4 & KR4).
     { cbn. rewrite (moved_base _ _ MV2), (moved_base _ _ MV1); exact B. }
     inversion KR4 as [|fb fc4 rb rest4' Kc Kd Ec Ed]; subst.
     destruct M4 as (G4 & EF4 & MM4 & B4 & D4).
     destruct (complete_dead r4 c4 fd4 fc4 rest4' (cv (val_of out) :: top) below G4 D4 EF4) as [S5 G5].
     { rewrite (kept_pos _ _ K4), (kept_code _ _ K4). reflexivity. }
-    { rewrite (kept_exit _ _ K4). cbn. rewrite (moved_exit _ _ MV2), (moved_exit _ _ MV1). exact EX. }
+    { rewrite (kept_die _ _ K4). reflexivity. }
     { rewrite EV4, EV. reflexivity. }
     { rewrite (kept_base _ _ K4). cbn. rewrite (moved_base _ _ MV2), (moved_base _ _ MV1). exact LB. }
     eexists _, _, fc4, rest4'. split; [eapply steps_trans; [exact S1|eapply steps_trans; [exact S2|eapply steps_trans; [exact S3|eapply steps_trans; [exact S4|exact S5]]]]|].
@@ -491,6 +783,72 @@ Proof.
       * apply match_upd. destruct MM4 as [F N]. split; [|exact N]. inversion F as [|sc f0 scs fs FM F' E1 E2]; subst. cbn. rewrite <- E1. cbn. exact F'.
       * split; [cbn; rewrite (kept_base _ _ Kc), (kept_base _ _ Ka); lia|rewrite defects_upd_cur; exact D4].
     + split; [reflexivity|]. split; [eapply kept_trans; eassumption|eapply kept_all_trans; eassumption].
+  - (* no more rounds *) intros s i body acc. exact I.
+  - (* a round, then the rest *) intros s x rest0 i body acc reg s1 acc' s' HB IHb HI IHi.
+    cbn [IterRuns]. intros r c f fc frest below allarr A EC EP EX ED SK LF ENS HBf.
+    specialize (IHb r c f fc frest below [] A EC EP HBf). cbn in IHb.
+    destruct IHb as (r1 & c1 & f1 & rest1 & S1 & A1 & MV1 & P1 & K1).
+    inversion K1 as [|fa fc1 ra frest1 Ka Kb Ea Eb]; subst.
+    destruct A as ((G0 & EF0 & _) & _).
+    destruct A1 as ((G1 & EF1 & (F1 & N1) & B1 & D1) & LB1 & top1 & EV1 & RR1).
+    assert (XE : f_exit f1 = Some (BForEach (map cv allarr) i)) by (rewrite (moved_exit _ _ MV1); exact EX).
+    assert (XD : f_die f1 = false) by (rewrite (moved_die _ _ MV1); exact ED).
+    assert (XP : f_pos f1 = length (f_code f1)) by (rewrite P1, (moved_code _ _ MV1); reflexivity).
+    pose proof (skipn_cons_length _ _ _ _ SK) as LEN.
+    inversion F1 as [|sc1 f0 scs1 fs1 FM1 F1' E1 E2]; subst.
+    destruct rest0 as [|x2 rest2].
+    + (* that was the last element *)
+      inversion HI; subst.
+      destruct (complete_loop r1 c1 f1 fc1 frest1 (map cv allarr) i top1 below G1 D1 EF1 XP XE XD) as [S2 G2].
+      { rewrite map_length, LEN. apply Nat.eqb_eq. cbn [length]. lia. } { exact EV1. } { exact LB1. }
+      eexists _, _, fc1, frest1. split; [eapply steps_trans; eassumption|]. split.
+      { destruct G0 as (C0 & _). destruct G2 as (C2 & _). eapply neq_by_frames; [exact C0|exact C2|].
+        cbn. rewrite EF0. cbn. rewrite (forall2_length _ _ _ Kb). lia. }
+      split.
+      { split; [exact G2|]. split; [reflexivity|]. split.
+        - apply match_upd. split; [|exact N1]. cbn. rewrite <- E1. cbn. exact F1'.
+        - split; [cbn; rewrite (kept_base _ _ Ka); lia|rewrite defects_upd_cur; exact D1]. }
+      split; [|split; assumption].
+      cbn. f_equal. destruct top1 as [|y top1]; cbn in RR1.
+      * rewrite RR1. reflexivity.
+      * destruct RR1 as [-> NN]. destruct reg; reflexivity.
+    + (* another element: the pass that goes round is the first pass of the next round *)
+      destruct LF as (i0 & code' & LC & LL).
+      assert (NE : Nat.eqb (S i) (length (map cv allarr)) = false) by (rewrite map_length, LEN; apply Nat.eqb_neq; cbn [length]; lia).
+      assert (EC1 : f_code f1 = i0 :: code') by (rewrite (moved_code _ _ MV1), EC; exact LC).
+      pose proof (loop_back r1 c1 f1 (fc1 :: frest1) (map cv allarr) i i0 code' top1 below G1 EF1 XP XE XD NE EC1 LL EV1 LB1) as LBk.
+      set (fV := next_round f1 (map cv allarr) i) in *.
+      set (cV := set_values (set_frames c1 (fV :: fc1 :: frest1)) below) in *.
+      destruct (skipn_cons_nth _ _ _ _ SK) as [_ SK1]. destruct (skipn_cons_nth _ _ _ _ SK1) as [NX SK2].
+      cbn [IterRuns] in IHi.
+      destruct (IHi (upd_cur r1 cV) cV fV fc1 frest1 below allarr) as (r4 & c4 & fc4 & rest4 & S4 & N4 & M4 & EV4 & K4 & KR4).
+      { split.
+        - split; [apply (good_upd r1 c1 cV G1); destruct G1 as (_ & _ & _ & _ & _ & _ & SU); exact SU|]. split; [reflexivity|]. split.
+          + apply match_upd. split; [|exact N1]. cbn. rewrite <- E1. cbn. constructor; [|exact F1'].
+            split; [|split; [|cbn; exact (proj2 (proj2 FM1))]].
+            * cbn. rewrite nth_val_map, NX. apply (vars_match_mvars [("_foreachindex", RNum (Z.of_nat (S i))); ("_x", x2)]).
+            * cbn. rewrite (moved_ns _ _ MV1), ENS, <- (kept_ns _ _ Ka).
+              inversion F1' as [|sc2 f00 scs2 fs2 FM2 F1'' E3 E4]. destruct FM2 as (_ & NS2 & _).
+              unfold cur_ns_of, pop_scope. cbn. rewrite <- E1. cbn. rewrite <- E3. exact NS2.
+          + split; [cbn; rewrite LB1; lia|rewrite defects_upd_cur; exact D1].
+        - split; [cbn; exact LB1|]. exists []. split; [reflexivity|reflexivity]. }
+      { cbn. rewrite (moved_code _ _ MV1). exact EC. } { reflexivity. } { reflexivity. } { cbn. exact XD. }
+      { exact SK1. } { exists i0, code'. split; assumption. }
+      { cbn. rewrite (moved_ns _ _ MV1), ENS, (kept_ns _ _ Ka). reflexivity. }
+      { rewrite (kept_base _ _ Ka). exact HBf. }
+      exists r4, c4, fc4, rest4. split; [eapply steps_trans; [exact S1|eapply virtual_start; [exact LBk|exact S4|exact N4]]|].
+      split.
+      { destruct G0 as (C0 & _). destruct M4 as ((C4 & _) & EF4 & _). eapply neq_by_frames; [exact C0|exact C4|].
+        rewrite EF4, EF0. cbn. rewrite (forall2_length _ _ _ KR4), (forall2_length _ _ _ Kb). lia. }
+      split; [exact M4|]. split; [exact EV4|]. split; [eapply kept_trans; eassumption|eapply kept_all_trans; eassumption].
+  - (* a round left by exitWith: the loop is over *) intros s x rest0 i body acc v s1 HB IHb.
+    cbn [IterRuns]. intros r c f fc frest below allarr A EC EP EX ED SK LF ENS HBf.
+    specialize (IHb r c f fc frest below [] A EC EP HBf). cbn in IHb.
+    destruct IHb as (r1 & c1 & fc1 & rest1 & S1 & M1 & EV1 & K1 & KR1).
+    exists r1, c1, fc1, rest1. split; [exact S1|]. split.
+    { destruct A as ((G0 & EF0 & _) & _). destruct G0 as (C0 & _). destruct M1 as ((C1 & _) & EF1 & _). eapply neq_by_frames; [exact C0|exact C1|].
+      rewrite EF1, EF0. cbn. rewrite (forall2_length _ _ _ KR1). lia. }
+    split; [exact M1|]. split; [exact EV1|]. split; assumption.
 Qed.
 
 (* ---------------------------------------------------------------- the reference semantics *)
@@ -498,14 +856,37 @@ Lemma in_scope_out f s sc b out s2 : eval_block f (push_scope s sc) b RNil = (oc
   in_scope_f f s sc b = (ONormal (val_of out), pop_scope s2).
 Proof. intros H. unfold in_scope_f. rewrite H. destruct out as [reg|v]; cbn [oc val_of]; [destruct reg; reflexivity|reflexivity]. Qed.
 
-Lemma dispatch_if_code {T} c b (A B C D E F : T) :
-  match RIf c, RCode b with
-  | _, RNone => A | RNil, RNil => B | _, RNil => C | RNone, _ => D | RNil, _ => E | _, _ => F end = F.
-Proof. reflexivity. Qed.
-
 Lemma eval_binary_exitwith f F s b :
   eval_binary (S f) s "exitwith" (RIf true) (RCode b) (in_scope_f F) plain_scope_f =
   match in_scope_f F s (plain_scope_f s []) b with (ONormal v, s') => (OExit v, s') | other => other end.
+Proof. reflexivity. Qed.
+
+(* the iteration of eval_binary, named *)
+Definition iterate_f (f:nat) :=
+  fix iterate (k:nat) (s:sstate) (arr:list rvalue) (i:nat) (body:list stmt) (with_index:bool)
+              (acc:rvalue) (step:rvalue -> nat -> rvalue -> rvalue -> option (bool * rvalue)) {struct k} : outcome * sstate :=
+    match k with O => (OFuel, s) | S k =>
+    match arr with
+    | [] => (ONormal acc, s)
+    | x :: rest =>
+        let vars := if with_index then [("_foreachindex", RNum (Z.of_nat i)); ("_x", x)] else [("_x", x)] in
+        let '(o, s1) := eval_block f (push_scope s (plain_scope_f s vars)) body (match i with O => RNil | _ => RNone end) in
+        let s2 := pop_scope s1 in
+        match o with
+        | ONormal v => match step x i v acc with
+                       | Some (true, acc') => iterate k s2 rest (S i) body with_index acc' step
+                       | Some (false, acc') => (ONormal acc', s2)
+                       | None => (OError, s2) end
+        | OExit v => (ONormal v, s2)
+        | OBreak name v => match st_scopes s1 with
+                           | sc' :: _ => if String.eqb (sc_name sc') name then (ONormal v, s2) else (OBreak name v, s2)
+                           | [] => (OBreak name v, s2) end
+        | other => (other, s2) end end end.
+Definition step_foreach : rvalue -> nat -> rvalue -> rvalue -> option (bool * rvalue) :=
+  fun _ _ v _ => Some (true, match v with RNone => RNil | _ => v end).
+Lemma eval_binary_foreach f F s body arr :
+  eval_binary (S f) s "foreach" (RCode body) (RArr arr) (in_scope_f F) plain_scope_f =
+  iterate_f f (S (length arr)) s arr O body true RNil step_foreach.
 Proof. reflexivity. Qed.
 
 Theorem ref_runs_z :
@@ -513,7 +894,9 @@ Theorem ref_runs_z :
   (forall s l vs s', zevs s l vs s' -> exists f0, forall f, f0 <= f -> forall acc, go_arr f s l acc = (ONormal (RArr (rev acc ++ vs)), s')) /\
   (forall s reg st reg1 s1, zstmt s reg st reg1 s1 -> exists f0, forall f, f0 <= f -> forall rest,
       eval_block (S f) s (st :: rest) reg = cont f rest s1 reg1) /\
-  (forall s reg b out s', zblock s reg b out s' -> exists f0, forall f, f0 <= f -> eval_block f s b reg = (oc out, s')).
+  (forall s reg b out s', zblock s reg b out s' -> exists f0, forall f, f0 <= f -> eval_block f s b reg = (oc out, s')) /\
+  (forall s arr i body acc acc' s', ziter s arr i body acc acc' s' -> exists f0, forall f, f0 <= f -> forall k, length arr < k ->
+      iterate_f f k s arr i body true acc step_foreach = (ONormal acc', s')).
 Proof.
   apply z_ind.
   - (* pure *) intros s e v HE. exists (esize e). intros f L. exact (proj2 (proj1 (pure_ref _ _) e v HE) s f (renv_ok_of s) L).
@@ -571,6 +954,12 @@ Proof.
     apply in_scope_out. apply IHx. lia.
   - (* if false exitWith *) intros s n a b x s1 s2 HN HA [fa IHa] HB [fb IHb]. exists (S (S (fa + fb))). intros [|[|f]] L; try lia.
     rewrite eval_S_binary, (IHa (S f)), (IHb (S f)) by lia. rewrite HN. reflexivity.
+  - (* forEach [] *) intros s n a b x s1 s2 HN HA [fa IHa] HB [fb IHb]. exists (S (S (fa + fb))). intros [|[|f]] L; try lia.
+    rewrite eval_S_binary, (IHa (S f)), (IHb (S f)) by lia. rewrite HN. reflexivity.
+  - (* forEach *) intros s n a x body x0 arr s1 s2 acc s3 HN LF HA [fa IHa] HX [fx IHx] HI [fi IHi]. exists (S (S (fa + fx + fi))).
+    intros [|f] L; [lia|]. rewrite eval_S_binary, (IHa f), (IHx f) by lia. rewrite HN.
+    destruct f as [|f]; [lia|].
+    rewrite eval_binary_foreach. apply IHi; [lia|cbn; lia].
   - (* no elements *) intros s. exists 0. intros f _ acc. cbn. rewrite app_nil_r. reflexivity.
   - (* elements *) intros s e v s1 l vs s2 HE [fe IHe] NN HL [fl IHl]. exists (fe + fl). intros f L acc.
     cbn [go_arr]. rewrite (IHe f) by lia. fold (go_arr f).
@@ -594,4 +983,15 @@ Proof.
     rewrite eval_binary_exitwith.
     rewrite (in_scope_out (S f) s2 (plain_scope_f s2 []) b out s3) by (apply IHb; lia).
     reflexivity.
+  - (* no more rounds *) intros s i body acc. exists 0. intros f _ [|k] L; [cbn in L; lia|]. reflexivity.
+  - (* a round, then the rest *) intros s x rest0 i body acc reg s1 acc' s' HB [fb IHb] HI [fi IHi]. exists (fb + fi).
+    intros f L [|k] LK; [lia|]. cbn [iterate_f]. fold (iterate_f f).
+    change (push_scope s (plain_scope_f s [("_foreachindex", RNum (Z.of_nat i)); ("_x", x)])) with (enter s [("_foreachindex", RNum (Z.of_nat i)); ("_x", x)]).
+    rewrite (IHb f) by lia. cbn [oc]. unfold step_foreach at 1.
+    change (match reg with RNone => RNil | _ => reg end) with (res_of reg).
+    apply IHi; [lia|cbn in LK; lia].
+  - (* a round left by exitWith *) intros s x rest0 i body acc v s1 HB [fb IHb]. exists fb.
+    intros f L [|k] LK; [lia|]. cbn [iterate_f]. fold (iterate_f f).
+    change (push_scope s (plain_scope_f s [("_foreachindex", RNum (Z.of_nat i)); ("_x", x)])) with (enter s [("_foreachindex", RNum (Z.of_nat i)); ("_x", x)]).
+    rewrite (IHb f) by lia. reflexivity.
 Qed.
